@@ -4,6 +4,7 @@ import (
 	"fmt"
 	"go/token"
 	"go/types"
+	"strings"
 
 	"ndndcheck/core"
 
@@ -815,6 +816,11 @@ func C08(c *core.Ctx) {
 			}
 			// computed (non-constant) leaves of the delay
 			var leaves []ssa.Value
+			// where a leaf is used: the timer call, or the return of the helper that
+			// computes the delay (nextUpdateDelay())
+			rootOf := map[ssa.Value]ssa.Value{}
+			atOf := map[ssa.Value]ssa.Instruction{}
+			curRoot, curAt := arg, ssa.Instruction(in)
 			seen := map[ssa.Value]bool{}
 			var walk func(v ssa.Value)
 			walk = func(v ssa.Value) {
@@ -823,6 +829,7 @@ func C08(c *core.Ctx) {
 					return
 				}
 				seen[v] = true
+				rootOf[v], atOf[v] = curRoot, curAt
 				switch y := v.(type) {
 				case *ssa.Phi:
 					for _, e := range y.Edges {
@@ -834,6 +841,21 @@ func C08(c *core.Ctx) {
 						leaves = append(leaves, v)
 					}
 				case *ssa.Call:
+					if g := y.Call.StaticCallee(); g != nil && g.Blocks != nil && strings.HasPrefix(core.PkgPathOf(g), core.ModPath) && len(seen) < 64 {
+						nR := 0
+						core.Instrs(g, func(ri ssa.Instruction) {
+							if r, okR := ri.(*ssa.Return); okR && len(r.Results) == 1 && ri.Block() != g.Recover {
+								nR++
+								sr, sa := curRoot, curAt
+								curRoot, curAt = r.Results[0], ri
+								walk(r.Results[0])
+								curRoot, curAt = sr, sa
+							}
+						})
+						if nR > 0 {
+							return
+						}
+					}
 					if b, isB := y.Call.Value.(*ssa.Builtin); isB && b.Name() == "min" {
 						for _, a := range y.Call.Args {
 							if _, isC := core.Strip(a).(*ssa.Const); isC {
@@ -877,8 +899,8 @@ func C08(c *core.Ctx) {
 					}
 					return 0, 0
 				}}
-				cut, per := core.CutEdges(in.Parent(), pos(bounded))
-				if per[0] == 0 || core.FlowPath(arg, in, func(x ssa.Value) bool { return core.Strip(x) == core.Strip(lf) }, cut, nil) {
+				cut, per := core.CutEdges(atOf[lf].Parent(), pos(bounded))
+				if per[0] == 0 || core.FlowPath(rootOf[lf], atOf[lf], func(x ssa.Value) bool { return core.Strip(x) == core.Strip(lf) }, cut, nil) {
 					bad = describeValue(lf)
 				}
 			}
